@@ -54,6 +54,33 @@ def b_int(ex, st, args, kwargs, node):
     raise Unsupported("int() of non-int")
 
 
+def b_map(ex, st, args, kwargs, node):
+    return [(("map", args[0], args[1]), st)]
+
+
+def b_all(ex, st, args, kwargs, node):
+    """all(map(f, view)) over a symbolic dict view / list: forall elements f(x)"""
+    v = args[0]
+    if isinstance(v, tuple) and v[0] == "map":
+        f, src = v[1], v[2]
+        if isinstance(src, tuple) and src[0] in ("keys", "values"):
+            d = st.deref(src[1])
+            if isinstance(d, PyDict):
+                conj = []
+                for x in (d.items.keys() if src[0] == "keys" else d.items.values()):
+                    r = ex.call(f, [x], {}, None, st, node)
+                    conj.append(ex.truthy(r[0][0], st))
+                return [(z3.And(*conj) if conj else z3.BoolVal(True), st)]
+            k = fresh("ak", d.ksort)
+            x = k if src[0] == "keys" else d.get(k)
+            r = ex.call(f, [x], {}, None, st.clone(), node)
+            if len(r) != 1 or isinstance(r[0][0], Raised):
+                raise Unsupported("all(map(f, ...)) with forking f")
+            body = ex.truthy(r[0][0], st)
+            return [(z3.simplify(z3.ForAll([k], z3.Implies(d.has(k), body))), st)]
+    raise Unsupported("all() of this iterable")
+
+
 def b_abs(ex, st, args, kwargs, node):
     v = ex.lift(args[0])
     return [(z3.If(v < 0, -v, v), st)]
@@ -99,6 +126,10 @@ def b_list(ex, st, args, kwargs, node):
         d = st.deref(v[1])
         if isinstance(d, PyDict):
             return [(st.alloc(PyList(list(d.items.keys()))), st)]
+        if isinstance(d, DictV):
+            return [(("keys_snapshot", d), st)]       # immutable snapshot of the key set at this point
+    if isinstance(v, tuple) and v[0] in ("map", "zip", "listcomp"):
+        return [(v, st)]
     raise Unsupported(f"list() of {type(v).__name__}")
 
 
@@ -208,7 +239,7 @@ def install(ex):
         "list": B(b_list), "set": B(b_set), "type": B(b_type), "isinstance": B(b_isinstance),
         "_is_boolean": B(b_is_boolean), "_is_integer": B(b_is_integer), "_is_floating": B(b_is_floating),
         "isinf": B(b_isinf), "isnan": B(b_isnan), "callable": B(b_callable), "id": B(b_id), "hex": B(b_hex),
-        "print": B(b_print), "inf": POS_INF,
+        "print": B(b_print), "inf": POS_INF, "map": B(b_map), "all": B(b_all),
     })
     for n in ("str", "dict", "tuple", "bool", "ValueError", "TypeError", "KeyError", "IndexError",
               "NotImplementedError", "Exception"):
